@@ -3,14 +3,9 @@ package engine
 import (
 	"fmt"
 	"io"
-	"regexp"
 	"strings"
 	"sync"
 	"unicode/utf8"
-)
-
-var (
-	quotedAtomEscapePattern = regexp.MustCompile(`[[:cntrl:]]|\\|'`)
 )
 
 var (
@@ -327,7 +322,18 @@ func needQuoted(a Atom) bool {
 }
 
 func quote(s string) string {
-	return fmt.Sprintf("'%s'", quotedAtomEscapePattern.ReplaceAllStringFunc(s, quotedIdentEscape))
+	var sb strings.Builder
+	_, _ = sb.WriteRune('\'')
+	for _, r := range s {
+		if isSingleQuotedCharacter(r) {
+			_, _ = sb.WriteRune(r)
+			continue
+		}
+		// Whatever the reader doesn't accept as it is in a quoted token has to be escaped.
+		_, _ = sb.WriteString(quotedIdentEscape(string(r)))
+	}
+	_, _ = sb.WriteRune('\'')
+	return sb.String()
 }
 
 func quotedIdentEscape(s string) string {
